@@ -212,7 +212,11 @@ def check_concat(case):
                     raise violation("C18/concat/transform", "TIGER-XML of A+B is not the concatenation of A and B (%r)" % (describe(job),))
             elif fa + fb != fab:
                 raise violation("C18/concat/transform", "output for A+B differs from output(A) + output(B) for %r" % (describe(job),))
-            if outs[0]["stdout"] + outs[1]["stdout"] != outs[2]["stdout"]:
+            stdouts = [o["stdout"] for o in outs]
+            if job["src_fmt"] in ("brackets", "discobrackets"):
+                # these formats carry no sentence ids: they are positional and restart in B, and punctuation_delete prints them
+                stdouts = ["\n".join(line.partition("\t")[2] if "\t" in line else line for line in text.split("\n")) for text in stdouts]
+            if stdouts[0] + stdouts[1] != stdouts[2]:
                 raise violation("C18/concat/transform-stdout", "stdout for A+B differs from stdout(A) + stdout(B) for %r" % (describe(job),))
         elif kind == "transitions":
             if dec(outs[0], "trans") + dec(outs[1], "trans") != dec(outs[2], "trans"):
